@@ -45,6 +45,19 @@ def setup(ctx):
     for vn, fi in order:
         lfs.append(sio.LabeledFrame(video=vids[vn], frame_idx=fi, instances=[synth.user_instance([[1.0, 1.0], [3.0, 2.0]], sk)]))
     labels = sio.Labels(lfs)
+    # the same two videos once more, stored as two datasets of ONE HDF5 file (the embedded-project layout: both report the same filename)
+    import h5py
+
+    shared = f"{d}/shared.h5"
+    with h5py.File(shared, "w") as f:
+        for name, (n, H, W) in {"a": (12, 8, 10), "b": (6, 6, 12)}.items():
+            fr = np.zeros((n, H, W, 1), np.uint8)
+            for i in range(n):
+                fr[i] = 10 * i + (1 if name == "a" else 5)
+            f.create_dataset("video_" + name, data=fr)
+    svids = {name: sio.load_video(shared, dataset="video_" + name) for name in ("a", "b")}
+    slfs = [sio.LabeledFrame(video=svids[vn], frame_idx=fi, instances=[synth.user_instance([[1.0, 1.0], [3.0, 2.0]], sk)]) for vn, fi in order]
+    _STATE.update(svids=svids, slfs=slfs)
     _STATE.update(vids=vids, labels=labels, lfs=list(labels.labeled_frames))
     _STATE["sigs"] = set()
 
@@ -124,7 +137,7 @@ def gen_case(ctx, i):
     if f_sel and e0 > s0:
         k = s0 + (i // 6) % (e0 - s0)  # round-robin over every index of the range
         fault = ["exc" if f_sel == 1 else "rank", int(k)]
-    return {"i": i, "kind": kind, "cap": cap, "batch": batch, "regime": regime, "start": start, "end": end, "n": n, "fault": fault, "instances_key": bool(kind == "labels" and r.random() < 0.3), "rot": int(r.integers(0, 2)) if kind == "labels" else 0,
+    return {"i": i, "kind": kind, "cap": cap, "batch": batch, "regime": regime, "start": start, "end": end, "n": n, "fault": fault, "instances_key": bool(kind == "labels" and r.random() < 0.3), "rot": int(r.integers(0, 2)) if kind == "labels" else 0, "shared_file": bool(kind == "labels" and r.random() < 0.3),
             "via_from_filename": bool(r.random() < 0.2 and fault is None), "sched_seed": int(r.integers(0, 2 ** 31))}
 
 
@@ -193,7 +206,8 @@ def build(case):
 
         # successive readers in this process see label sets that share the Video objects at different positions of labels.videos
         rot = int(case.get("rot") or 0)
-        sel = _STATE["lfs"][rot: rot + n]
+        sel = (_STATE["slfs"] if case.get("shared_file") else _STATE["lfs"])[rot: rot + n]
+        vids = _STATE["svids"] if case.get("shared_file") else vids
         sub = sio.Labels(sel)
         src = FaultyLabels(sub, n, fault[1], fault[0]) if fault else sub
         reader = providers.LabelsReader(src, q, instances_key=bool(case.get("instances_key")))
@@ -286,7 +300,7 @@ def check(ctx, case):
     ctx.count("injected_delays", inj)
     ctx.count("queue_events", len(q.events))
     small = dict(case)
-    cfg = (case["kind"], case["cap"], case["batch"], case["start"], case["end"], tuple(case["fault"]) if case["fault"] else None, bool(case.get("instances_key")))
+    cfg = (case["kind"], case["cap"], case["batch"], case["start"], case["end"], tuple(case["fault"]) if case["fault"] else None, bool(case.get("instances_key")), bool(case.get("shared_file")))
     if verdict["watchdog"]:
         ctx.note_inconclusive(f"watchdog expired in an undecided state for {cfg}")
         ctx.tick()
